@@ -105,7 +105,8 @@ def read_interactions(path, comments="#", directed=False, delimiter=None,
     ids = None
     lines = (line.decode(encoding) for line in path)
     if keys:
-        ids = read_ids(path.name, delimiter=delimiter, timestamptype=timestamptype)
+        lines = list(lines)
+        ids = read_ids(lines, comments=comments, delimiter=delimiter, timestamptype=timestamptype, interactions=True)
 
     return parse_interactions(lines, comments=comments, directed=directed, delimiter=delimiter, nodetype=nodetype,
                               timestamptype=timestamptype, keys=ids)
@@ -289,24 +290,34 @@ def read_snapshots(path, comments="#", directed=False, delimiter=None,
     ids = None
     lines = (line.decode(encoding) for line in path)
     if keys:
-        ids = read_ids(path.name, delimiter=delimiter, timestamptype=timestamptype)
+        lines = list(lines)
+        ids = read_ids(lines, comments=comments, delimiter=delimiter, timestamptype=timestamptype)
 
     return parse_snapshots(lines, comments=comments, directed=directed, delimiter=delimiter, nodetype=nodetype,
                            timestamptype=timestamptype, keys=ids)
 
 
-def read_ids(path, delimiter=None, timestamptype=None):
-    f = open(path)
+def read_ids(lines, comments='#', delimiter=None, timestamptype=None, interactions=False):
+    """Map every timestamp found in the rows the parsers would accept to its rank."""
     ids = {}
-    for line in f:
-        s = line.rstrip().split(delimiter)
-        ids[timestamptype(s[-1])] = None
-        if len(line) == 4:
-            if s[-2] not in ['+', '-']:
-                ids[timestamptype(s[-2])] = None
-
-    f.flush()
-    f.close()
+    for line in lines:
+        p = line.find(comments)
+        if p >= 0:
+            line = line[:p]
+        s = line.strip().split(delimiter)
+        if interactions:
+            # rows are 'u v op t'
+            fields = s[3:4] if len(s) == 4 else []
+        else:
+            # rows are 'u v t' or 'u v t e'
+            fields = s[2:4] if len(s) >= 3 else []
+        for f in fields:
+            if timestamptype is not None:
+                try:
+                    f = timestamptype(f)
+                except:
+                    raise TypeError("Failed to convert timestamp %s to type %s." % (f, timestamptype))
+            ids[f] = None
 
     ids = compact_timeslot(ids.keys())
     return ids
